@@ -117,6 +117,9 @@ def enumerated(tier, seed):
     hubs = [[0, 1], [0, 2], [1, 2]] + [[h, 3 + 1500 * h + i] for h in range(3) for i in range(1500)]
     out.append({"n": 4503, "edges": hubs, "labels": list(range(4503)), "node_order": None, "ops": [["mpcc", 0]],
                 "rng": {"mode": "seed", "seed": seed}, "large": True})
+    # one clique of 20 vertices: more than a million sub-cliques, the largest enumerated last
+    out.append({"n": 20, "edges": [list(p) for p in combinations(range(20), 2)], "labels": list(range(20)), "node_order": None,
+                "ops": [["mpcc", 0]], "rng": {"mode": "seed", "seed": seed}, "large": True})
     path = [[i, i + 1] for i in range(3000)] + [[2999, 3001], [3000, 3001]]
     out.append({"n": 3002, "edges": path, "labels": list(range(3002)), "node_order": None, "ops": [["mpcc", 3]],
                 "rng": {"mode": "seed", "seed": seed}, "large": True})
